@@ -539,6 +539,9 @@ func main() {
 			continue
 		}
 		ev := h.check(c, "random")
+		if c.Note == "sandwich" {
+			run.Count("gen:sandwich:" + ev.Status)
+		}
 		if ev.Status == "ok" {
 			run.Sample(map[string]interface{}{"query": c.Query, "variables": c.Variables, "response": ev.RealJSON})
 		}
@@ -554,7 +557,13 @@ func main() {
 func randomCase(r *hx.Rand) *Case {
 	s := gqlgen.RandomSchema(r)
 	req := gqlgen.RandomRequest(r, s)
-	c := &Case{Schema: s, Doc: req.Doc, Layout: gqlgen.RandomLayout(r), Variables: req.Variables, OpName: req.OpName}
+	note := ""
+	if r.Chance(1, 3) && gqlgen.Sandwich(r.Fork(), s, req) {
+		// one composite field several times under one response key, the middle occurrences under different
+		// type conditions with equally long sub-selections (merged lists that differ only in the middle)
+		note = "sandwich"
+	}
+	c := &Case{Schema: s, Doc: req.Doc, Layout: gqlgen.RandomLayout(r), Variables: req.Variables, OpName: req.OpName, Note: note}
 	c.Query = req.Doc.Print(c.Layout)
 	op := req.Doc.SelectedOp(req.OpName)
 	if op == nil {
